@@ -62,8 +62,10 @@ void harness(void)
 #endif
 	V_CHECK("rt: same length", (size_t) dec.data.msg == in_len + HDR);
 	V_CHECK("rt: same bytes", IMP(in_k < in_len, dec.data.pos + HDR + in_k < SLACK + FCAP && store[dec.data.pos + HDR + in_k] == in_msg[in_k]));
-#ifdef RT_SPLIT
+#if defined(RT_SPLIT) && !defined(TEXT_FRAMING)
 	V_COVER("message with inner zero handed over in two pieces", in_len >= 3 && in_split > 0 && in_split < in_len && in_msg[1] == 0);
+#elif defined(RT_SPLIT)
+	V_COVER("text handed over in two pieces", in_len >= 3 && in_split > 0 && in_split < in_len);
 #endif
 	V_COVER("empty message", in_len == 0);
 #ifndef TEXT_FRAMING
